@@ -304,3 +304,7 @@ pub fn validate_vehicles(ctx: &ValidationContext) -> Result<(), MultiFormatError
     ])
     .map_err(From::from)
 }
+
+#[cfg(kani)]
+#[path = "/verif/kani/vrp-pragmatic/vehicles_proofs.rs"]
+mod verif_kani_proofs;
